@@ -310,6 +310,9 @@ func main() {
 	}
 	if ents, err := os.ReadDir("/verif/corpus/C15"); err == nil {
 		for _, e := range ents {
+			if !strings.HasSuffix(e.Name(), ".sql") { // inputs are *.sql; proposed-repair.diff is documentation
+				continue
+			}
 			if b, err := os.ReadFile("/verif/corpus/C15/" + e.Name()); err == nil {
 				h.eval(bytes.TrimSuffix(b, []byte("\n")), "corpus")
 			}
